@@ -33,7 +33,7 @@ Proof.
   rewrite R. unfold judge.
   rewrite N.eqb_refl, same_set_refl. cbn [andb].
   destruct (t =? 6) eqn:E6.
-  - rewrite (apex_lookup z o 2 W (or_introl eq_refl)), same_set_refl. apply orb_true_r.
+  - rewrite (apex_lookup z o 2 W (or_introl eq_refl)), same_set_refl. now rewrite orb_true_r.
   - reflexivity.
 Qed.
 
